@@ -199,6 +199,56 @@ def find_anchor(toks, lo, hi, anchor):
     return None
 
 
+def param_names(toks, it):
+    """names of the parameters of a fn item (self for receivers, None for non-identifier patterns)"""
+    sig_s = [k for k in range(it.head_lo, it.body_lo if it.body_lo else it.hi) if toks[k].kind not in ("ws", "comment", "doc")]
+    n = 0
+    while toks[sig_s[n]].text != "fn":
+        n += 1
+    n += 2
+    if n < len(sig_s) and toks[sig_s[n]].text == "<":
+        depth = 0
+        while True:
+            tt = toks[sig_s[n]].text
+            depth += tt == "<"
+            depth -= tt == ">"
+            n += 1
+            if depth == 0:
+                break
+    if n >= len(sig_s) or toks[sig_s[n]].text != "(":
+        return []
+    close = rs.match_close(toks, sig_s[n])
+    inner = [k for k in sig_s if sig_s[n] < k < close]
+    params, cur, depth = [], [], 0
+    for k in inner:
+        t = toks[k].text
+        if t in ("(", "[", "{", "<"):
+            depth += 1
+        elif t in (")", "]", "}", ">"):
+            depth -= 1
+        if t == "," and depth == 0:
+            params.append(cur)
+            cur = []
+        else:
+            cur.append(k)
+    if cur:
+        params.append(cur)
+    names = []
+    for pr in params:
+        texts = [toks[k].text for k in pr]
+        if "self" in texts[:4] and ":" not in texts[:texts.index("self")]:
+            names.append("self")
+            continue
+        ids = []
+        for k in pr:
+            if toks[k].text == ":":
+                break
+            if toks[k].kind == "ident" and toks[k].text not in ("mut", "ref"):
+                ids.append(toks[k].text)
+        names.append(ids[0] if len(ids) == 1 else None)
+    return names
+
+
 class Splicer:
     def __init__(self, repo, gen, probes=False, demote=()):
         self.repo, self.g, self.probes, self.demote = repo, gen, probes, set(demote)
@@ -443,7 +493,7 @@ class Splicer:
         # R5 assert_eq!
         s = [k for k in range(body_lo, body_hi) if toks[k].kind not in ("ws", "comment", "doc")]
         for n, k in enumerate(s):
-            if toks[k].kind == "ident" and toks[k].text in ("assert_eq", "debug_assert_eq") and toks[s[n + 1]].text == "!":
+            if toks[k].kind == "ident" and toks[k].text in ("assert_eq", "debug_assert_eq", "assert_ne", "debug_assert_ne") and toks[s[n + 1]].text == "!":
                 op = s[n + 2]
                 cl = rs.match_close(toks, op)
                 args, depth, cur = [], 0, op + 1
@@ -461,8 +511,9 @@ class Splicer:
                     args.append((cur, cl))
                 a = rs.text_of(toks, *args[0]).strip()
                 b = rs.text_of(toks, *args[1]).strip()
-                mac = "assert" if toks[k].text == "assert_eq" else "debug_assert"
-                self.sub(k, cl + 1, "%s!(%s == %s)" % (mac, a, b), "R5")
+                mac = "assert" if toks[k].text in ("assert_eq", "assert_ne") else "debug_assert"
+                op_ = "==" if toks[k].text.endswith("_eq") else "!="
+                self.sub(k, cl + 1, "%s!(%s %s %s)" % (mac, a, op_, b), "R5")
         cls = self.closures(body_lo + 1, body_hi)
         # R4 wildcard closure parameters
         specd = {}
@@ -699,6 +750,33 @@ class Splicer:
             self.insert_before(body_lo, "\n" + text + "    ")
 
 
+PINNED_PARAMS = {}
+
+
+def rename_spec(fs, ren):
+    """contracts name parameters as the pinned tree does; if a parameter was renamed, follow it (by position)"""
+    import copy
+    fs2 = copy.deepcopy(fs)
+    fs2.used = fs.used
+
+    def sub(text):
+        for a, b in ren.items():
+            text = re.sub(r"(?<![A-Za-z0-9_.])%s(?![A-Za-z0-9_])" % re.escape(a), b, text)
+        return text
+    for c in fs2.clauses:
+        c.expr = sub(c.expr)
+    for l in fs2.loops:
+        for c in l.clauses:
+            c.expr = sub(c.expr)
+    for g_ in fs2.ghosts:
+        g_.text = sub(g_.text)
+        g_.anchor = sub(g_.anchor)
+    for c in fs2.closures:
+        for cl in c.clauses:
+            cl.expr = sub(cl.expr)
+    return fs2
+
+
 def token_hash(toks, lo, hi, dele=()):
     h = hashlib.sha256()
     for k in range(lo, hi):
@@ -742,6 +820,8 @@ def process_file(sp, fspec, g):
                                         "item": rs.norm(toks, it.head_lo, min(it.hi, it.head_lo + 12)), "why": why})
 
     def emit_fn(it, key, fs, in_trait=False):
+        if fs is not None:
+            fs.used = True
         if key in sp.demote:
             if fs is None:
                 fs = specfile.Fn(key)
@@ -760,6 +840,14 @@ def process_file(sp, fspec, g):
         if fs:
             for a in fs.fnattr:
                 g.raw(a + "\n")
+        actual = param_names(toks, it)
+        g.meta.setdefault("params", {})["%s|%s" % (fspec.path, key)] = actual
+        pinned = PINNED_PARAMS.get("%s|%s" % (fspec.path, key))
+        if fs is not None and pinned and len(pinned) == len(actual) and pinned != actual:
+            ren = {a: b for a, b in zip(pinned, actual) if a and b and a != b and a != "self"}
+            if ren:
+                fs = rename_spec(fs, ren)
+                g.meta.setdefault("param_renames", []).append({"fn": key, "renamed": ren})
         sp.r11(it.head_lo, it.body_lo if it.body_lo else it.hi, add=None if in_trait else 'item')
         sp.r1(it.head_lo, it.hi)
         sp.docs_inside(it.head_lo, it.hi)
@@ -898,11 +986,15 @@ def main():
     ap.add_argument("--out", default=None)
     ap.add_argument("--specs", nargs="*", default=None)
     ap.add_argument("--demote", action="append", default=[])
+    ap.add_argument("--record-params", action="store_true", help="write contracts/params.json from the current tree (done once on the pinned tree)")
     ap.add_argument("--probes", action="store_true", help="vacuity run: assert(false) at the start of every contracted fn and loop body")
     a = ap.parse_args()
     out = a.out or os.path.join(a.verif, "gen")
     os.makedirs(out, exist_ok=True)
     g = Gen(a.repo)
+    pp = os.path.join(a.verif, "contracts", "params.json")
+    if os.path.exists(pp) and not a.record_params:
+        PINNED_PARAMS.update(json.load(open(pp)))
     sp = Splicer(a.repo, g, probes=a.probes, demote=a.demote)
     g.raw("// GENERATED by tools/splice.py from %s -- do not edit\n" % a.repo)
     g.raw("#![allow(unused_imports, dead_code, unused_variables, unused_mut, unused_unsafe, unreachable_code, non_snake_case)]\n")
@@ -943,6 +1035,8 @@ def main():
     open(os.path.join(out, "griddle_verus.rs"), "w").write(text)
     g.meta["linemap"] = {str(k): [v[0], v[1]] for k, v in linemap.items()}
     json.dump(g.meta, open(os.path.join(out, "meta.json"), "w"), indent=1)
+    if a.record_params:
+        json.dump(g.meta.get("params", {}), open(pp, "w"), indent=0, sort_keys=True)
     print("generated %d lines, %d functions (%d under contract, %d external)" % (
         text.count("\n"), len(g.meta["functions"]), sum(1 for f in g.meta["functions"] if f["contract"]),
         len(g.meta["external"])))
